@@ -152,7 +152,12 @@ func runFacts(cases []gcase, sampleEvery int) []event {
 				fmt.Fprintf(os.Stderr, "facts batch %d: %v, %d bytes\n", lo, time.Since(t0), len(r.Stdout))
 			}
 			if r.Exit != 0 || r.TimedOut {
-				kit.Fatalf("facts batch %d failed: exit=%d stderr=%s", lo, r.Exit, r.Stderr)
+				// the real command line refused or failed the (valid) fact-gathering program: an observation about fq, not about the
+				// harness -- every program of the batch is reported with an unusable tree, which TLC rejects
+				for k := lo; k < hi; k++ {
+					evs[k] = event{"id": cases[k].ID, "a": map[string]any{"__err": fmt.Sprintf("command line failed on the fact-gathering program: exit=%d timeout=%v stderr=%.300s", r.Exit, r.TimedOut, r.Stderr)}}
+				}
+				return
 			}
 			n := 0
 			for _, line := range strings.Split(r.Stdout, "\n") {
